@@ -11,6 +11,14 @@ Inductive case :=
    contents after each - an admissible outcome is the atomic model of that order
    (C17_script_judge_accepts / C17_script_executed_absorbing) *)
 | Hist (init : kv) (faults : list bool) (ops : list op) (impl : list obs)
+(* a history on ONE long-lived executor object: [lives] says which deliveries were whole
+   Executor.Execute calls that failed before the broadcast and have returned (nothing of them is in
+   progress any more); judged by the retry/executed judge AND the redelivery judge (Model/C17.v
+   redeliver_ok, C17_model_redelivers / C17_judge_released_redelivered) *)
+| HistX (init : kv) (faults : list bool) (ops : list op) (lives : list bool) (impl : list obs)
+(* a history of whole Execute calls on ONE long-lived EVM / Substrate executor object, each failing
+   before the broadcast at the given place: per call the proposals handed to ProposalsHash *)
+| XHist (k : xkind) (executed : list key) (steps : list xstep)
 (* goroutines sharing one store: per thread its own keys, fault schedule, operations and what it
    observed (store contents: the keys it can name); the whole store at the end; the number of store
    calls / entries with a key the calling thread cannot name *)
@@ -76,6 +84,10 @@ Definition agree (c : case) : bool :=
   match c with
   | Hist init faults ops impl =>
       forallb wf_op ops && all_obs_eqb (universe init ops) (run ops (init_state init faults)) impl
+  | HistX init faults ops _ impl =>
+      forallb wf_op ops && all_obs_eqb (universe init ops) (run ops (init_state init faults)) impl
+  | XHist _ executed steps =>
+      forallb (fun s => negb (x_hung s) && keys_eqb (xexec executed (x_keys s) (x_fail s)) (x_hashed s)) steps
   | Conc init RE RO threads fin stray =>
       (* the layout the theorems need; every thread saw what the sequential model sees alone
          (C17_conc_projection); the whole store at the end is the union of the per-thread models and
@@ -95,6 +107,10 @@ Definition agree (c : case) : bool :=
 Definition judge (c : case) : bool :=
   match c with
   | Hist init faults ops impl => hist_ok (universe init ops) init ops impl
+  | HistX init faults ops lives impl =>
+      hist_ok (universe init ops) init ops impl && redeliver_ok init jinit ops lives impl
+  | XHist _ executed steps =>
+      forallb (fun s => xdeliver_ok executed (x_keys s) (x_fail s) (x_hung s) (x_hashed s)) steps
   | Conc init RE RO threads fin _ =>
       (* per thread: the sequential judge on its own history, and what it last saw executed is executed
          at the end (C17_conc_judge_accepts: so it is in every interleaving of the model) *)
@@ -107,6 +123,9 @@ Definition judge (c : case) : bool :=
    bit 4 some proposal is executed at the end, bit 5 a concurrent case *)
 Definition tag (c : case) : N :=
   match c with
+  | XHist k _ steps =>
+      256 + (match k with Xevm => 0 | Xsub => 1 end)
+      + (if existsb (fun s => match xexec [] (x_keys s) (x_fail s) with [] => true | _ => false end) steps then 2 else 0)
   | RaceRun _ _ => 64
   | Conc init RE RO threads _ _ =>
       32 + (if existsb (fun t => match t with (_, faults, ops, _) =>
@@ -115,6 +134,16 @@ Definition tag (c : case) : N :=
          + (if existsb (fun t => match t with (_, faults, ops, _) =>
                           existsb (fun ob => match ob with (_, _ :: _, _) => true | _ => false end)
                                   (run ops (init_state init faults)) end) threads then 8 else 0)
+  | HistX init faults ops lives _ =>
+      let r := run ops (init_state init faults) in
+      (if existsb (fun b : bool => b) lives then 128 else 0)
+      + (if existsb (fun ob => match ob with (ORetry (_ :: _), _, _) => true | _ => false end) r then 1 else 0)
+      + (if existsb (fun ob => match ob with (ODeliver None, _, _) => true | _ => false end) r then 4 else 0)
+      + (if existsb (fun ob => match ob with (_, _ :: _, _) => true | _ => false end) r then 8 else 0)
+      + (match rev r with
+         | (_, _, m) :: _ => if existsb (fun k => is_exec (get m k)) (universe init ops) then 16 else 0
+         | [] => 0
+         end)
   | Hist init faults ops _ =>
       let r := run ops (init_state init faults) in
       (if existsb (fun ob => match ob with (ORetry (_ :: _), _, _) => true | _ => false end) r then 1 else 0)
